@@ -70,6 +70,44 @@ def ensure_repo_build():
     return time.time() - t0
 
 
+TSAN = os.path.join(BUILD, 'tsan')
+TSAN_FLAGS = '-O1 -g -fsanitize=thread -fno-omit-frame-pointer -DTINS_VERIF_HOOKS'
+
+
+def ensure_tsan_build():
+    """incremental out-of-tree ThreadSanitizer build of /repo's working tree (C18)"""
+    with Lock('repo_tsan'):
+        stamp = os.path.join(BUILD, 'tsan.flags')
+        if not os.path.exists(os.path.join(TSAN, 'build.ninja')) or not os.path.exists(stamp) or open(stamp).read() != TSAN_FLAGS:
+            os.makedirs(TSAN, exist_ok=True)
+            rc, out = sh(['cmake', '-G', 'Ninja', '-S', REPO, '-B', TSAN, '-DLIBTINS_BUILD_SHARED=0',
+                          '-DLIBTINS_BUILD_TESTS=0', '-DLIBTINS_BUILD_EXAMPLES=0', '-DCMAKE_BUILD_TYPE=None',
+                          '-DCMAKE_CXX_FLAGS=' + TSAN_FLAGS], timeout=600)
+            if rc != 0:
+                raise BuildError('cmake configure (tsan) failed:\n' + out[-3000:])
+            open(stamp, 'w').write(TSAN_FLAGS)
+        rc, out = sh(['ninja', '-C', TSAN, '-j', str(NPROC)], timeout=1800)
+        if rc != 0:
+            raise BuildError('libtins does not build (tsan):\n' + out[-4000:])
+
+
+def build_tsan_harness(name):
+    src = os.path.join(V, 'harness', name + '.cpp')
+    out = os.path.join(BIN, name)
+    lib = os.path.join(TSAN, 'lib', 'libtins.a')
+    os.makedirs(BIN, exist_ok=True)
+    with Lock('harness_' + name):
+        if os.path.exists(out) and all(os.path.getmtime(d) <= os.path.getmtime(out) for d in (src, lib, os.path.join(BUILD, 'accessors_gen.h'))):
+            return out
+        cmd = ('g++ -std=c++11 %s -I%s/include -I%s/include -I%s/harness -I%s %s -o %s %s -lpcap -lssl -lcrypto -lpthread'
+               % (TSAN_FLAGS, REPO, TSAN, V, BUILD, src, out + '.tmp', lib))
+        rc, o = sh(cmd, timeout=900)
+        if rc != 0:
+            raise BuildError('harness %s does not build:\n%s' % (name, o[-4000:]))
+        os.replace(out + '.tmp', out)
+    return out
+
+
 def build_harness(name, extra_src=(), flags=''):
     src = os.path.join(V, 'harness', name + '.cpp')
     out = os.path.join(BIN, name)
